@@ -147,6 +147,8 @@ static void check_layer(PDU* l, const std::string& how) {
         bool really = t.dyn(l) != nullptr;
         const std::string sd = (t.dyn_cached && t.dyn_cached(l)) ? "cacher-alias/" : "state-dependent/";     // T = PDUCacher<X> asked of an X: the listed design-level finding, same key as in the pairs sweep
         if (l->matches_flag(t.flag)) { if (!really) { violation("find_pdu/" + sd + "K=" + kn + ",T=" + t.name, "find_pdu<" + t.name + "> succeeds on a " + kn + " object (" + how + ") that is not a " + t.name); continue; } cnt("find_succeeded"); if (!l->inner_pdu() && t.find(l) != t.dyn(l)) violation("find_pdu-address/K=" + kn + ",T=" + t.name, "find_pdu returned a different address than dynamic_cast (" + how + ")"); }
+        else if (!l->inner_pdu() && t.find(l) != nullptr) { violation("find_pdu-inconsistent/" + sd + "K=" + kn + ",T=" + t.name, "matches_flag(" + t.name + "::pdu_flag) is false but find_pdu<" + t.name + "> returns the object (" + how + ")"); continue; }      // the real helper, not only the predicate it is documented to use
+        if (t.flag != l->pdu_type() && t.cast(l) != nullptr) { violation("tins_cast-inconsistent/" + sd + "K=" + kn + ",T=" + t.name, "pdu_type() differs from " + t.name + "::pdu_flag but tins_cast succeeds (" + how + ")"); continue; }
         if (t.flag == l->pdu_type()) { if (!really) { violation("tins_cast/" + sd + "K=" + kn + ",T=" + t.name, "tins_cast<" + t.name + "*> succeeds on a " + kn + " object (" + how + ") that is not a " + t.name); continue; } cnt("cast_succeeded"); if (t.cast(l) != t.dyn(l)) violation("tins_cast-address/K=" + kn + ",T=" + t.name, "tins_cast returned a different address than dynamic_cast (" + how + ")"); }
         cnt("pairs");
     }
